@@ -18,6 +18,8 @@
 -/
 import Mistletoe.Proofs.BlockTotal
 import Mistletoe.Proofs.DocTotal
+import Mistletoe.Props.C06
+import Mistletoe.Model.Config
 import Mistletoe.Props.C13
 namespace Mistletoe.Props.C01
 open Mistletoe Mistletoe.Py Mistletoe.Scan Mistletoe.Block Mistletoe.Lines
@@ -303,5 +305,42 @@ example :
       codeFenceLoop "```".toList 0 4 fw [] = codeFenceLoop "```".toList 0 1000 fw [] := by
   refine ⟨by decide +kernel, by decide +kernel, ?_⟩
   exact (C01_block_inner_fuel_irrelevant 4 1000 _ (by decide +kernel) (by decide +kernel)).2.1 _ _ _
+
+
+/-! ### Parse-and-render is total: the three phases together
+
+  The hypothesis `hinl` of the Document-level theorems (the inline phase returns) is discharged by
+  `C06_tokenize_inner_total` (Proofs/CoreTotal.lean: `find_core_tokens`, `process_emphasis`, the link
+  matchers and the span tokenizer never raise and their fuels suffice), for EVERY span-token list.
+  The HTML renderer model (`Html.render`) is a total Lean function, so parse-and-render returns a
+  string whenever the parse does. -/
+
+/-- **`Document(text)` never raises**, for every text, every block- and span-token list and every gas:
+    the only error value the model can return is running out of gas. -/
+theorem C01_parse_no_raise (cfg : Document.Cfg) (gas : Nat) (t : Str) (e : Err)
+    (h : Document.parse cfg gas t = .err e) : e = .fuel :=
+  C01_document_str_no_raise cfg gas t (fun fn s => C06.C06_tokenize_inner_total cfg.span fn s) e h
+
+/-- **`Document(text)` terminates and returns a document** once the gas is at least the closed-form bound
+    `gasBound` of the normalised lines (and then more gas changes nothing: `C01_document_gas_mono`). -/
+theorem C01_parse_terminates (cfg : Document.Cfg) (gas : Nat) (t : Str)
+    (hg : gasBound cfg.block (docBuf (normalize (.str t))) ≤ gas) : ∃ d, Document.parse cfg gas t = .ok d :=
+  C01_document_str_terminates cfg gas t (fun fn s => C06.C06_tokenize_inner_total cfg.span fn s) hg
+
+/-- the same for a document given as a list of complete lines -/
+theorem C01_parse_lines_total (cfg : Document.Cfg) (gas : Nat) (lines : List Str) (hl : ∀ s ∈ lines, NlEnd s)
+    (hg : gasBound cfg.block (docBuf lines) ≤ gas) : ∃ d, Document.parseLines cfg gas lines = .ok d :=
+  C01_document_terminates cfg gas lines hl (fun fn s => C06.C06_tokenize_inner_total cfg.span fn s) hg
+
+/-- **Parse-and-render with the HTML renderer returns a string for every text**: with the token lists
+    the HTML renderer installs (regenerated from /repo) and enough gas, `Config.renderHtml` is `some _`,
+    whatever the options. -/
+theorem C01_html_total (opts : Html.Opts) (cfg : Document.Cfg) (hc : Config.html = some cfg) (gas : Nat) (t : Str)
+    (hg : gasBound cfg.block (docBuf (normalize (.str t))) ≤ gas) : ∃ out, Config.renderHtml opts gas t = some out := by
+  obtain ⟨d, hd⟩ := C01_parse_terminates cfg gas t hg
+  exact ⟨Html.render opts d, by simp [Config.renderHtml, hc, hd]⟩
+
+/-- the configuration exists: the regenerated lists are known to the model -/
+example : Config.html.isSome = true := by decide +kernel
 
 end Mistletoe.Props.C01
